@@ -638,9 +638,12 @@ func (x *Run) execUnOp(fr *Frame, st *State, ins *ssa.UnOp, outs *[]Outcome) {
 	case token.ARROW:
 		ct := types.Unalias(ins.X.Type()).Underlying().(*types.Chan)
 		r := x.freshVal(st, "recv", ct.Elem())
-		st.events = append(st.events, Event{Name: "recv", Args: []Val{v, r}})
+		if !ins.CommaOk {
+			st.events = append(st.events, Event{Name: "recv", Args: []Val{v, r}, Ret: Val{T: "true", S: SBool}})
+		}
 		if ins.CommaOk {
 			ok := x.freshVal(st, "recvok", types.Typ[types.Bool])
+			st.events = append(st.events, Event{Name: "recv", Args: []Val{v, r}, Ret: ok})
 			closed := sel(x.arr(st, x.chClosedFor(v, ins.X.Type())), v.T)
 			st.assume(implies(not(closed), ok.T))
 			st.assume(implies(not(ok.T), eq(r.T, x.d.zero(ct.Elem()))))
